@@ -1,7 +1,7 @@
 (** C16 — Indexes and memoisation return what the plain computation returns.
     Statements only; proofs in Proofs/IndexProofs.v.  Models of the repaired alpha index and
     memo key (fix commits c8e1e36, 34a4ae3). *)
-From RRE Require Import Base.Sx Base.Float Model.Index Proofs.IndexProofs Proofs.IndexAlphaProofs.
+From RRE Require Import Base.Sx Base.Float Model.Index Proofs.IndexProofs Proofs.IndexAlphaProofs Proofs.IndexBetaProofs.
 Open Scope Z_scope.
 
 (** Values with the same Debug rendering are interchangeable on either side of ==
@@ -34,6 +34,22 @@ Print Assumptions C16_memo_eq_direct.
 Theorem C16_memo_eq_direct_from_empty : forall calls, run_memo [] calls = spec_memo calls.
 Proof. intro calls. apply memo_eq_direct. intros n f r []. Qed.
 Print Assumptions C16_memo_eq_direct_from_empty.
+
+(** A join-key lookup returns exactly the live facts carrying that key (in the order they were added), after EVERY
+    history of add / remove / lookup, for every key shape (keys compared by their Debug rendering, an equivalence). *)
+Theorem C16_beta_lookup_is_live_facts : forall ops, run_beta [] ops = spec_beta [] ops.
+Proof. exact beta_index_exact. Qed.
+Print Assumptions C16_beta_lookup_is_live_facts.
+
+(** The conclusion index proposes every enabled rule that assigns the goal's field, after EVERY history of add_rule /
+    remove_rule (re-adding under a name, removing, disabled rules): [present] is the specification's view - the rules
+    added enabled with a conclusion and not removed since; [extract_field] is the field before the goal's first operator
+    (after repair 464da73). *)
+Theorem C16_conclusion_index_complete : forall ops n fs goal,
+  In (n, fs) (fold_left pstep ops []) -> mem_str (extract_field goal) fs = true ->
+  mem_str n (c_find (fold_left cstep ops cinit) goal) = true.
+Proof. exact conclusion_index_complete. Qed.
+Print Assumptions C16_conclusion_index_complete.
 
 (** non-vacuity: the pre-repair witnesses.  Integer 5 then String "5"; NaN and -0.0 lookups *)
 Example C16_example :
